@@ -1727,6 +1727,9 @@ class MiniInterp:
                 return r
         if t in SAFE_METHODS and attr in SAFE_METHODS[t]:
             return T("native", obj, attr)
+        if attr in ("__eq__", "__ne__", "__lt__", "__le__", "__gt__", "__ge__") and (self.plain(obj) or isinstance(obj, (list, tuple, dict))):
+            op_ = {"__eq__": ast.Eq, "__ne__": ast.NotEq, "__lt__": ast.Lt, "__le__": ast.LtE, "__gt__": ast.Gt, "__ge__": ast.GtE}[attr]()
+            return PyFn(attr, lambda a, k, obj=obj, op_=op_: self.compare(op_, obj, a[0]))
         if isinstance(obj, (list, tuple, dict, str)) and attr in ("__getitem__", "__contains__", "__len__"):
             if attr == "__getitem__":
                 return PyFn("__getitem__", lambda a, k, obj=obj: self.ev(
